@@ -47,8 +47,10 @@ Users(incr) ==
       THEN /\ users' = 0 /\ top2' = size /\ used' = used - (size - top2)
       ELSE /\ users' = users + incr /\ UNCHANGED <<top2, used>>
    /\ UNCHANGED <<size, top1, live>>
-\* alignment padding and the compaction after the factorization move one end without a request of their own
+\* alignment padding of an L/U array and the compaction after the factorization move the HEAD without a request of their own (the master
+\* does both while no worker runs).  The tail has no such step: a block handed to a worker thread is final -- moving the tail boundary
+\* in a critical section of its own, after the block was handed out, is the defect F24 (p?gstrf_WorkInit now aligns inside its block).
 Adjust(end, d) ==
-   /\ live /\ used' = used + d /\ UNCHANGED <<size, users, live>>
-   /\ IF end = 0 THEN top1' = top1 + d /\ UNCHANGED top2 ELSE top2' = top2 - d /\ UNCHANGED top1
+   /\ live /\ end = 0 /\ used' = used + d /\ UNCHANGED <<size, users, live>>
+   /\ top1' = top1 + d /\ UNCHANGED top2
 =============================================================================
